@@ -56,6 +56,8 @@ def evaluate(name, suite=True):
         "detected_by_tier": tier,
         "detection": res.get(tier, {}) if tier else {k: res.get(k) for k in ("quick", "thorough") if k in res},
     }
+    if os.path.exists(os.path.join(d, "note.txt")):
+        meta["note"] = open(os.path.join(d, "note.txt")).read().strip()
     if suite or not os.path.exists(os.path.join(d, "meta.json")):
         pass
     else:
@@ -97,7 +99,7 @@ def main():
                                     "repo_test_suite_passes_with_patch"))
         rows.append(f"| {n} | {m['property']} | {m['breaks'][:110].replace('|', '/')} | "
                     f"{m['needs_to_manifest'][:140].replace('|', '/')} | {'yes' if ok else 'NO'} | "
-                    f"{m['detected_by_tier'] or 'MISSED'} | {orc} |")
+                    f"{m['detected_by_tier'] or ('not reported (see note)' if m.get('note') else 'MISSED')} | {orc} |")
     with open(os.path.join(SEEDED, "INDEX.md"), "w") as f:
         f.write("# Independently written breaking changes and which check catches them\n\n"
                 "Each row: a change written by a fresh sub-agent that saw only the property text and a scratch worktree.\n"
